@@ -193,14 +193,17 @@ def pollBuild (s : FSt) (b : BSt) : FSt :=
 
 /-- the GOAWAY write; `none` = the write is pending (not supported here) -/
 def shutdownCall (s : FSt) : FSt × Option (Option CErr) :=
-  if s.sentClosing then (s, some none) else
+  if s.sentClosing then
+    let (d, r) := shutdownEntry s.drv true none
+    ({ s with drv := d }, some r)
+  else
   let s := { s with sentClosing := true }
   let (n1, w, _) := pollWrite netTr s.net 0 .start
   let s := ({ s with net := n1 } : FSt).flush
   match w with
-  | .done none => ({ s with ctlFrames := s.ctlFrames ++ [7] }, some none)
-  | .done (some e) =>
-    let (d, c) := shutdownWrite s.drv (some e)
+  | .done r =>
+    let (d, c) := shutdownEntry s.drv false r
+    let s := if r.isNone then { s with ctlFrames := s.ctlFrames ++ [7] } else s
     (s.setDrv d, some c)
   | _ => ({ s with unsupported := true }, none)
 
